@@ -46,6 +46,23 @@ fn try_run_builtin(
     }
 
     let cmd = &cl.commands[idx_cmd];
+    // a redirection target that cannot be opened fails the command without
+    // running it, as for an external program
+    for item in &cmd.redirects_to {
+        if item.2.starts_with('&') {
+            continue;
+        }
+        match tools::create_raw_fd_from_file(&item.2, true) {
+            Ok(fd) => {
+                unsafe { libc::close(fd); }
+            }
+            Err(e) => {
+                println_stderr!("cicada: {}: {}", &item.2, e);
+                return Some(CommandResult::error());
+            }
+        }
+    }
+
     let tokens = cmd.tokens.clone();
     let cname = tokens[0].1.clone();
     if cname == "alias" {
